@@ -126,7 +126,11 @@ func (ld *Loaded) ssaPkg(path string) *ssa.Package {
 // redirectTable: environment cut points (DESIGN 3). key = SSA function name,
 // value = (package path, harness function) with the receiver as first parameter.
 var redirectTable = map[string][2]string{
-	"(*" + repoMod + "/jrpc2.Client).do": {repoMod + "/jrpc2", "zzDo"},
+	"(*" + repoMod + "/jrpc2.Client).do":                  {repoMod + "/jrpc2", "zzDo"},
+	"(*github.com/jackc/pgx/v5/pgxpool.Pool).Begin":       {repoMod + "/shovel", "zzPoolBegin"},
+	"(*github.com/jackc/pgx/v5/pgxpool.Pool).Exec":        {repoMod + "/shovel", "zzPoolExec"},
+	"(*" + repoMod + "/jrpc2.URL).String":                 {repoMod + "/jrpc2", "zzURLString"},
+	"(*" + repoMod + "/jrpc2.URL).Hostname":               {repoMod + "/jrpc2", "zzURLHostname"},
 }
 
 // nativeCuts: how the same cut points are applied for native replay. The
@@ -139,9 +143,17 @@ type nativeCut struct {
 	Old     string // exact text to find
 	New     string // replacement
 	Wrapper string // Go source appended as an extra file of that package
+	All     bool   // replace every occurrence
 }
 
 var nativeCuts = []nativeCut{
+	{
+		Pkg:  "shovel",
+		File: "shovel/task.go",
+		Old:  "task.pgp.Begin(ctx)",
+		New:  "zzPoolBegin(task.pgp, ctx)",
+		All:  true,
+	},
 	{
 		Pkg:  "jrpc2",
 		File: "jrpc2/client.go",
